@@ -106,6 +106,18 @@ def run_case(case, ctx):
         (root / "deep" / "REUSE.toml").write_text('version = 1\n[[annotations]]\npath = "**"\nprecedence = "closest"\nSPDX-FileCopyrightText = "2001 Deep"\n') if mode == "toml" else None
         (root / "deep" / "er" / "x.py").write_text("print(1)\n")
         (root / "deep" / "er" / "still" / "y.c").write_text("// SPDX-License-Identifier: 0BSD\nint y;\n")
+        if mode != "dep5":
+            # files that share one closest annotation, some with half a header: any state kept between files shows up as
+            # a dependence on processing order or on how tasks are spread over workers
+            mix = root / "mix"
+            (mix / "sub").mkdir(parents=True)
+            (mix / "REUSE.toml").write_text('version = 1\n[[annotations]]\npath = "**"\nprecedence = "closest"\n'
+                                            'SPDX-FileCopyrightText = "2002 Mix Holder"\nSPDX-License-Identifier = "Zlib"\n')
+            for name, text in (("a_lic_only.py", "# SPDX-License-Identifier: MIT\nx = 1\n"), ("b_none.py", "x = 2\n"),
+                               ("c_cop_only.py", "# SPDX-FileCopyrightText: 2020 Partial\nx = 3\n"), ("d_none.txt", "plain\n"),
+                               ("sub/e_none.py", "x = 5\n"), ("sub/f_lic_only.py", "# SPDX-License-Identifier: 0BSD\nx = 6\n"),
+                               ("sub/g_cop_only.c", "// SPDX-FileCopyrightText: 2021 Other Partial\nint g;\n"), ("z_none.md", "last\n")):
+                (mix / name).write_text(text)
         if git:
             trees.git(root, "add", "-A", check=False)
             trees.git(root, "commit", "-q", "-m", "init", check=False)
